@@ -37,7 +37,8 @@ class C02(core.Check):
                                        'align:explicit-page', 'align:non-power-of-2', 'muted-line', 'excluded-line',
                                        'const-from-const', 'label-before:instr', 'label-before:data', 'label-before:fill',
                                        'label-at-end', 'zerountil:behind-by-2+', 'zerountil:adjacent', 'zerountil:ahead',
-                                       'global-redefined', 'global-redefined+origin-above-start']}
+                                       'global-redefined', 'global-redefined+origin-above-start', 'include-from:ZP', 'include-from:HI_z',
+                                       'include-from:GLOBAL']}
 
     def make_case(self, g, rng, extra_tags=()):
         isa = g.isa
@@ -156,6 +157,59 @@ class C02(core.Check):
                                      {'k': 'label', 'name': 'later', 'scope': 'g'}, {'k': 'data', 'width': 1, 'vals': [0xEF]}]
                     if g.finish():
                         yield self.make_case(g, rng, ['zerountil-sweep', 'zerountil:' + ('behind-by-2+' if rel <= -2 else 'adjacent' if rel == -1 else 'ahead')])
+
+        # directed include cases: an included file is laid out from the GLOBAL cursor whatever zone its includer had selected,
+        # its labels take those addresses, and the includer's next line follows its own zone's last byte
+        zones = [{'name': 'ZP', 'start': 0x100, 'end': 0x17F}, {'name': 'HI_z', 'start': 0x300, 'end': 0x3FF}]
+        k = 0
+        for zn in ('ZP', 'HI_z', 'GLOBAL'):
+            for pre_n in (0, 3):
+                for inc_shape in ('label-first', 'bytes-first', 'org-first'):
+                    for how in ('memzone', 'zone-org'):
+                        if zn == 'GLOBAL' and how == 'zone-org':
+                            continue
+                        rng = core.rng_for(0, self.pid, 'inc', k)
+                        k += 1
+                        isa = gen_prog.layout_isa(16, zones=zones)
+                        sel = [{'k': 'memzone', 'name': zn}] if how == 'memzone' else [{'k': 'org', 'addr': 4, 'zone_name': zn}]
+                        main_a = [{'k': 'data', 'width': 1, 'vals': [0x11] * 2}] + sel + \
+                            ([{'k': 'data', 'width': 1, 'vals': [0x12] * pre_n}] if pre_n else []) + [{'k': 'label', 'name': 'before_inc'}]
+                        inc = {'label-first': [{'k': 'label', 'name': 'inc_lbl'}, {'k': 'data', 'width': 1, 'vals': [0x21, 0x22, 0x23]}],
+                               'bytes-first': [{'k': 'data', 'width': 1, 'vals': [0x21]}, {'k': 'label', 'name': 'inc_lbl'},
+                                               {'k': 'data', 'width': 1, 'vals': [0x22]}],
+                               'org-first': [{'k': 'org', 'addr': 0x40, 'zone_name': None}, {'k': 'label', 'name': 'inc_lbl'},
+                                             {'k': 'data', 'width': 1, 'vals': [0x21, 0x22]}]}[inc_shape]
+                        main_b = [{'k': 'label', 'name': 'after_inc'}, {'k': 'data', 'width': 1, 'vals': [0x31]},
+                                  {'k': 'ref2', 'names': ['before_inc', 'inc_lbl', 'after_inc', 'tail_lbl']},
+                                  {'k': 'memzone', 'name': 'GLOBAL'}, {'k': 'label', 'name': 'tail_lbl'}, {'k': 'data', 'width': 1, 'vals': [0x41]}]
+                        stream = main_a + [{'k': 'include_begin'}] + inc + [{'k': 'include_end'}] + main_b
+                        for l in stream:
+                            if l['k'] == 'ref2':
+                                l['k'] = 'data'
+                                l['width'] = 2
+                                l['vals'] = [0] * len(l['names'])
+                        res = layout.layout(stream, 16, origin=0, predefined_zones=zones, size_of=lambda l, a: l['width'] * len(l['vals']))
+                        if res.kind != 'ACCEPT' or layout.overlaps(res)[0] != 'ACCEPT':
+                            continue
+                        lab = {l['name']: l['addr'] for l in stream if l['k'] == 'label'}
+                        for l in stream:
+                            if 'names' in l:
+                                l['vals'] = [lab[n] for n in l['names']]
+                        layout.memory_map(res, lambda l: layout.data_bytes(l['width'], l['vals'], 'big'))
+
+                        def text(l):
+                            if 'names' in l:
+                                return '.2byte ' + ', '.join(l['names'])
+                            if l['k'] == 'data':
+                                return '.byte ' + ', '.join(str(v) for v in l['vals'])
+                            return gen_prog.render_line(l, None)
+                        fn, itext = isamod.render_isa(isa, 'json')
+                        fl = {fn: itext, 'p.asm': '\n'.join([text(l) for l in main_a] + ['#include "inc.asm"'] + [text(l) for l in main_b]) + '\n',
+                              'inc.asm': '\n'.join(text(l) for l in inc) + '\n'}
+                        yield {'runs': [{'files': fl, 'argv': ['compile', '-c', fn, 'p.asm', '-o', 'out.bin'],
+                                         'probes': ['steps', 'sizes', 'cursor'], 'step_limit': 3_000_000}],
+                               'meta': {'lines': {}, 'image': layout.image(res.M, 0, None, 0).hex(), 'labels': lab},
+                               'tags': sorted({'include-sweep', 'include-from:' + zn, 'included-file:' + inc_shape, 'ref:forward', 'ref:backward'})}
 
     def judge(self, case, outcomes):
         o = outcomes[0]
